@@ -59,11 +59,13 @@ def normalise(raw_events):
                 if not ready:
                     early_conns.append(e)
                 else:
-                    out.append({"ev": "Conn", "b": e["b"], "h": hostmap.get(e["host"], e["host"]), "init": False})
+                    out.append({"ev": "Conn", "b": e["b"], "h": hostmap.get(e["host"], e["host"]), "init": False,
+                                "sess": "%s|%s" % (e.get("version", 4), e.get("compression", ""))})
             elif ev == "Ready":
                 ready = True
                 for c in early_conns:
-                    out.append({"ev": "Conn", "b": c["b"], "h": hostmap.get(c["host"], c["host"]), "init": True})
+                    out.append({"ev": "Conn", "b": c["b"], "h": hostmap.get(c["host"], c["host"]), "init": True,
+                                "sess": "%s|%s" % (c.get("version", 4), c.get("compression", ""))})
             elif ev == "ScenarioStart":
                 started = True
             elif not started:
@@ -83,7 +85,7 @@ def normalise(raw_events):
                 reqinfo[r] = {"scenario": m.group(4), "class": m.group(1), "op": m.group(3), "tok": e["t"],
                               "client": e["c"], "stream": e["stream"]}
                 out.append({"ev": "Submit", "r": r, "c": e["c"], "s": e["stream"], "idem": m.group(1) == "idem",
-                            "op": m.group(3), "cached": bool(m.group(2)), "t": e["t"]})
+                            "op": m.group(3), "cached": bool(m.group(2)), "t": e["t"], "sess": e.get("sess", "4|")})
             elif ev == "BackendRecv":
                 if e["b"] in registered:
                     continue
